@@ -36,6 +36,13 @@ MAP = [
  ("IGS loop counter overflows", "C20", "G#&319,676,2147483647,,O@0,: attempt to add with overflow"),
  ("RIP parameter parsing panics", "C20", "!|w + non base-36 size digit: unwrap on None; long base-36 numbers overflow; empty polyline reads points[0]"),
  ("IGS polygon fill scans every line", "C20", "G#U3,0,9999,430,1: more than 4M pixel operations for one rounded box"),
+ ("Tundra loader reads position and colour records", "C02", "small.tnd truncated to 10/58/74/106 bytes: index out of bounds; jump record with high bit set: negative row"),
+ ("XBin loader slices the palette, font and run data", "C02", "small.xb truncated to 33/49 bytes, font/palette flags without data: index / slice out of bounds"),
+ ("TheDraw font loader reads font headers and glyphs", "C02", "CODERX.TDF truncated to 240/14938/30264 bytes: index out of bounds"),
+ ("SAUCE extraction underflows", "C02", "file consisting of a bare SAUCE record: len - 1 underflow; record without EOF byte drops the last content byte (also C11)"),
+ ("IcyDraw loader indexes chunk payloads", "C02", "LAYER_n truncated / continuation chunk for unknown layer / string length beyond chunk: index out of bounds"),
+ ("line insert / delete at a negative cursor row", "C02", ".ata file 1C 9C / 1C 9D: 'line out of range' assertion"),
+ ("GIMP palette import drops every colour", "C16", "palette exported to GPL with an empty description imports as 0 colours"),
 ]
 
 def main():
